@@ -135,6 +135,18 @@ def main(argv=None):
             newlock[k] = {'source_hash': r['info']['source_hash'], 'obligations': sorted(rel_name(o, r['info']['lines'][0]) for o in r['obligations'])}
     if a.update_lock:
         json.dump(newlock, open(LOCK, 'w'), indent=1, sort_keys=True)
+    # --- Lean justification of the assumed theory facts (thorough tier): re-check the files against Mathlib
+    lean_res = None
+    if tier == 'thorough' and spec.get('lean'):
+        lean_res = []
+        for f in spec['lean']:
+            t1 = time.time()
+            try:
+                r = subprocess.run(['lean', f], cwd=os.path.join(ROOT, 'lean', 'GvcTheory'), capture_output=True, text=True, timeout=900)
+                okl = r.returncode == 0 and 'error' not in (r.stdout + r.stderr) and 'sorry' not in (r.stdout + r.stderr)
+                lean_res.append({'file': 'lean/GvcTheory/' + f, 'ok': okl, 'wall_s': round(time.time() - t1, 1), 'output': (r.stdout + r.stderr)[-300:]})
+            except Exception as e:
+                lean_res.append({'file': 'lean/GvcTheory/' + f, 'ok': False, 'wall_s': round(time.time() - t1, 1), 'output': str(e)})
     # --- bounded stand-ins / replay search
     b = None if a.no_bounded else run_bounded(pid, tier, seed)
     # --- decide
@@ -174,6 +186,8 @@ def main(argv=None):
             now = sorted(rel_name(o, r['info']['lines'][0]) for o in r['obligations'])
             if now != lk['obligations']:
                 undecided.append({'function': k, 'obligation': k + '/lock-mismatch', 'kind': 'lock', 'solver': 'obligation set differs from obligations.lock for unchanged source'})
+    for lr in (lean_res or []):
+        if not lr['ok']: undecided.append({'function': 'theory', 'obligation': 'lean/' + lr['file'], 'kind': 'lean', 'solver': lr['output']})
     for name, st, log in lemma_res:
         if st != 'unsat': undecided.append({'function': 'theory', 'obligation': 'lemma/' + name, 'kind': 'lemma', 'solver': log})
     if frame_open and bviol:
@@ -210,7 +224,7 @@ def main(argv=None):
         for u in undecided: out_lines.append('UNDECIDED obligation=%s %s' % (u['obligation'], u['solver'][:200]))
         exit_code = 2
     # --- evidence
-    write_evidence(pid, tier, seed, spec, results, lemma_res, b, violations, bviol, undecided, downgraded, known, time.time() - t0, REG)
+    write_evidence(pid, tier, seed, spec, results, lemma_res, b, violations, bviol, undecided, downgraded, known, time.time() - t0, REG, lean_res)
     for k, r in results.items():
         n = len([o for o in r['obligations'] if o.kind != 'canary']); d = len([o for o in r['obligations'] if o.kind != 'canary' and o.status == 'unsat'])
         print('  %-40s %-8s %d/%d obligations%s' % (k, r['status'], d, n, ('  (' + r.get('reason', '')[:90] + ')') if r['status'] == 'unbound' else ''))
@@ -226,7 +240,7 @@ def main(argv=None):
     return exit_code
 
 
-def write_evidence(pid, tier, seed, spec, results, lemma_res, b, violations, bviol, undecided, downgraded, known, wall, REG):
+def write_evidence(pid, tier, seed, spec, results, lemma_res, b, violations, bviol, undecided, downgraded, known, wall, REG, lean_res=None):
     from gvc import theory as T
     obls = [o for r in results.values() for o in r['obligations'] if o.kind != 'canary']
     dis = [o for o in obls if o.status == 'unsat']
@@ -257,7 +271,8 @@ def write_evidence(pid, tier, seed, spec, results, lemma_res, b, violations, bvi
                             'value semantics for containers: soundness side condition (no mutation through aliases) checked by gvc/effects.py'] + assumed + lfp + assumed_contracts + spec.get('trusted', []),
            'functions_under_contract': fns, 'samples': samples,
            'explanation': spec['explanation'],
-           'bounded_standins': None, 'downgraded_to_bounded': downgraded}
+           'bounded_standins': None, 'downgraded_to_bounded': downgraded,
+           'lean_files': lean_res if lean_res is not None else [{'file': 'lean/GvcTheory/' + f, 'checked': 'in the thorough tier (lean 4.33 + Mathlib)'} for f in spec.get('lean', [])]}
     if b:
         cov['bounded_standins'] = {'label': 'bounded (never counted as proved)', 'evaluations': b['evaluations'], 'distinct_nontrivial': b['distinct_nontrivial'], 'groups': b['groups'],
                                    'bounds': b['bounds'], 'samples': b['samples'][:6], 'wall_s': b['wall_s'], 'notes': b.get('notes', [])}
